@@ -207,6 +207,15 @@ func TestC09(t *testing.T) {
 	r.Assume("the ledger wraps the real memguard/protectedmemory factories through WithSecretFactory, so it sees every secret the SDK allocates")
 	cs := cells([]string{"simple", "nocache", "lru1-shared", "sesscache"}, []string{"enc", "dec"})
 	explore(t, r, "C09", cs, map[string]bool{"ms": true, "kms": true, "aead": true, "alloc": true, "access": true}, ev.Pick(12, 100))
+	// the same cells with the real secure-memory implementations on a monitored memcall: every single memory
+	// primitive (alloc, lock, protect, unlock, free) of the operation fails in turn - a real failure inside the
+	// implementation, not one modelled at its interface
+	for _, impl := range []string{"protectedmemory", "memguard"} {
+		secretImpl, execMemcall = impl, true
+		explore(t, r, "C09", cells([]string{"simple", "nocache"}, []string{"enc", "dec"}), map[string]bool{"memcall": true}, ev.Pick(0, 30))
+		r.Count("passes_with_memcall_faults_"+impl, 1)
+	}
+	secretImpl, execMemcall = "memguard", false
 	schedulesForC09(t, r)
 	sessionCacheLedger(t, r)
 	sidecarLedger(t, r)
@@ -228,6 +237,15 @@ func TestC10(t *testing.T) {
 	}
 	explore(t, r, "C10", cs2, map[string]bool{"ms": true, "kms": true, "aead": true, "alloc": true, "access": true}, ev.Pick(0, 40))
 	secretImpl = "memguard"
+	// the same cells with the real secure-memory implementations on a monitored memcall: every single memory
+	// primitive (alloc, lock, protect, unlock, free) of the operation fails in turn - a real failure inside the
+	// implementation, not one modelled at its interface
+	for _, impl := range []string{"protectedmemory", "memguard"} {
+		secretImpl, execMemcall = impl, true
+		explore(t, r, "C10", cells([]string{"simple", "nocache"}, []string{"enc", "dec"}), map[string]bool{"memcall": true}, ev.Pick(0, 30))
+		r.Count("passes_with_memcall_faults_"+impl, 1)
+	}
+	secretImpl, execMemcall = "memguard", false
 	awsPlaintexts(t, r)
 	r.Finish(t)
 }
